@@ -209,6 +209,16 @@ theorem C14_terms_final_conservation {V : Type} (p : TermsP) (all : List (Int ×
   rw [sumCounts_append]
   omega
 
+/-- top_hits: the best `k` `(sort key, document)` pairs of a union only depend on the best `k`
+of the parts (the `TopNComputer` semilattice; same specification shape as C06's
+`topK le K 0`), with no hypothesis on the entries — so top_hits, at any depth, is covered by
+`C14_merge_comm/assoc/empty_unit`, `C14_finalize_collect_eq_evalAgg` and
+`C14_direct_equals_partitioned` like every other node -/
+theorem C14_top_hits_merge (desc : Bool) (k : Nat) (x y : List HitE) :
+    (Hits.ofList (x ++ y) : Hits desc k) = Hits.merge (Hits.ofList x) (Hits.ofList y)
+      ∧ (Hits.ofList (x ++ y) : Hits desc k).list = (isort (hitLe desc) (x ++ y)).take k :=
+  ⟨Hits.ofList_append x y, rfl⟩
+
 /-- merging after a serialisation round trip that is the identity on intermediate trees gives
 the same result (that postcard's round trip *is* the identity is tested by the harness, not
 proved) -/
@@ -302,6 +312,9 @@ example : ∀ d ∈ exDocs1 ++ exDocs2, DocOK exReq d := by
   intro d hd
   simp only [exDocs1, exDocs2, List.cons_append, List.nil_append, List.mem_cons, List.not_mem_nil, or_false] at hd
   rcases hd with rfl | rfl | rfl | rfl <;> (simp only [DocOK, exReq]; decide)
+example : evalAgg Int (.hist ⟨0, 10, 0, 1, Option.none, Option.none⟩ (.topHits 1 1 1 true))
+    [[(0, [1]), (1, [7])], [(0, [2]), (1, [9])], [(0, [15]), (1, [3])]] = [(0, 2, [(9, 9)]), (1, 1, [(3, 3)])] := by
+  decide +kernel
 example : [0, 10, 20].Pairwise (fun a b : Int => a < b) := by decide
 example : ([1, 2, 3] : List Int).Nodup ∧ ∀ d ∈ exTDocs, ∀ k ∈ termKeys ⟨0, Option.none, 2, 2, 1, .countDesc⟩ d, k ∈ [1, 2, 3] := by
   decide
